@@ -12,6 +12,7 @@ from pbt import xpath_ref as X
 from pbt.runtime import Ctx, Labels, Part, require
 
 PROP = "C20"
+WARM_LEGACY = True  # first-use order of the legacy classes differs between shards
 RULE = (
     "Hypothesis attached legacy trees (tuple AND list child fields, optional children, a required "
     "child, tuples up to 13 wide) x (prune, filter) predicate subsets over the nodes (all 2^n x 2^n "
@@ -30,7 +31,7 @@ ASSUMPTIONS = ["reference traversal of C05 and xpath semantics of pbt/xpath_ref.
 FLOORS = {"trees:list-children": 0.25, "trees:index>=10": 0.05}
 
 CLASS_NAMES = ["AwareASTNode", *L.CLASS_NAMES]
-FIELD_NAMES = ["req", "opt", "items", "lst", "un", "root", "nosuch", "v"]
+FIELD_NAMES = ["req", "opt", "items", "lst", "un", "oseq", "extra", "root", "nosuch", "v"]
 BAD_XPATHS = ["//", "/", "", "/@", "/LInner/@items[a]LLeaf", "/LInner[1", "LInner//", "/@items[1]", "//Nope", "//CodeOrigin",
               "/LInner/@items[-1]LLeaf", "//LeafA"]
 
@@ -208,6 +209,41 @@ def _check_tree(data: dict, lab: Labels) -> None:
         except Exception as e:  # noqa: BLE001
             require(False, "legacy-xpath-foreign-exception", f"{text!r}: {type(e).__name__}: {e}")
 
+    # ---- a class name that was unknown when a path was first compiled must be accepted once it exists
+    if data.get("late") is not None:
+        import sys
+        import types
+
+        import pyoak.serialize as S
+
+        name = f"LateLegacy{data['late'] % 4}"
+        S.TYPES.pop(name, None)
+        for text in (f"//{name}", f"/LInner/@items[0]{name}"):
+            try:
+                ASTXpath(text)
+                require(False, "legacy-unknown-class-accepted", text)
+            except (ASTXpathDefinitionError, NewErr):
+                pass
+        mod = types.ModuleType("pbt_late_legacy")
+        mod.__file__ = "<pbt_late_legacy>"
+        sys.modules["pbt_late_legacy"] = mod
+        src = ("from dataclasses import dataclass\nfrom pyoak.legacy.node import AwareASTNode\n"
+               f"@dataclass\nclass {name}(AwareASTNode):\n    v: int = 0\n")
+        exec(compile(src, mod.__file__, "exec", dont_inherit=True), mod.__dict__)
+        from pyoak.origin import NO_ORIGIN
+
+        inst = mod.__dict__[name](origin=NO_ORIGIN, v=1)
+        holder = L.cls("LInner")(origin=NO_ORIGIN, items=(inst,))
+        for text in (f"//{name}", f"/LInner/@items[0]{name}"):
+            try:
+                x2 = ASTXpath(text)
+            except (ASTXpathDefinitionError, NewErr) as e:
+                require(False, "legacy-existing-class-rejected", f"{text}: {e}")
+            require(x2.match(inst) is True and x2.match(holder) is False, "legacy-xpath-late-class", text)
+        S.TYPES.pop(name, None)
+        sys.modules.pop("pbt_late_legacy", None)
+        lab.tag("late-class")
+
     # ---- calculate_xpath
     non_root = b.of(specs[-1]) if n > 1 else None
     if non_root is not None:
@@ -288,6 +324,7 @@ def st_case(ctx: Ctx):
         "tree": tree, "start": st.sampled_from([0, 0, 0, 1, 2, 5]), "masks": masks, "gather": gmask,
         "xpaths": st.lists(st.one_of(raw, derived, derived, subseq, subseq), min_size=5, max_size=5),
         "bad": st.lists(st.integers(0, 30), min_size=2, max_size=2), "thorough": st.just(ctx.thorough),
+        "late": st.one_of(st.none(), st.none(), st.none(), st.integers(0, 3)),
     })
 
 
